@@ -149,6 +149,7 @@ thread_local! {
     static DIALER: RefCell<Option<Box<dyn FnMut(&str) -> Option<Dial>>>> = RefCell::new(None);
     static TRACKER: RefCell<Option<Box<dyn FnMut(u64) -> TrackerOutcome>>> = RefCell::new(None);
     static TRACKER_CALLS: Cell<u64> = Cell::new(0);
+    static TRACKER_LATENCY_MS: Cell<u64> = Cell::new(100);
     static FAILPOINT: RefCell<Option<Box<dyn FnMut(&'static str) -> Option<u64>>>> = RefCell::new(None);
 }
 
@@ -179,6 +180,11 @@ pub fn script_tracker(script: Option<Box<dyn FnMut(u64) -> TrackerOutcome>>) {
     TRACKER_CALLS.with(|c| c.set(0));
 }
 
+/// Round-trip time of one scripted announce in tokio time (default 100 ms).
+pub fn set_tracker_latency(ms: u64) {
+    TRACKER_LATENCY_MS.with(|l| l.set(ms));
+}
+
 /// Stand-in for `TrackerClient::run` used when a script is installed: same channel, same
 /// `Fail -> sleep 1 s -> retry` / `TrackerResp -> end` shape.
 pub fn scripted_tracker(
@@ -189,6 +195,8 @@ pub fn scripted_tracker(
     }
     Some(tokio::spawn(async move {
         loop {
+            let latency = TRACKER_LATENCY_MS.with(|l| l.get());
+            tokio::time::sleep(tokio::time::Duration::from_millis(latency)).await;
             let n = TRACKER_CALLS.with(|c| {
                 let v = c.get();
                 c.set(v + 1);
